@@ -28,7 +28,7 @@ THEOREMS = ['C01_flag_den', 'C01_expand_surfs_den', 'C01_expand_surfs_errors',
             'C01_remove_empty_sound', 'C01_prune_sound', 'C01_partition',
             'C01_partition_points', 'C01_print_read', 'C01_partition_file',
             'C01_partition_file_points', 'C01_partition_file_points_linked',
-            'C01_cells_linked', 'C01_partition_linked']
+            'C01_cells_linked', 'C01_partition_linked', 'C01_partition_fill_linked']
 TRUSTED = [
     'hand-written model coq/C01/Model.v (modelled, tied by execution only)',
     'surfaces are abstract ids: what a T4 surface id means geometrically, and '
@@ -135,6 +135,32 @@ def run_pipeline_stream(res, rng, cases, label, chunk=150):
             res.count(f'{label}:none-operand')
         if obs[7] is not None:
             res.count(f'{label}:printed-lines-compared', len(obs[7]))
+        # structural categories reached (from the implementation's own tables)
+        u0, u1 = case['u0'], case['u1']
+        before, final = obs[2], obs[5]
+        if len(final) < len(before):
+            res.count(f'{label}:shape:volumes-pruned')
+        if any(v[0] == [u0] and v[1] == [u0] for _, v in before):
+            res.count(f'{label}:shape:empty-reference-stand-in')
+        if any(v[0] == [u0] and v[1] == [u1] for _, v in before):
+            res.count(f'{label}:shape:union-on-helper-planes')
+        if any(v[2] is not None and v[2][0] == 'UNION' and not
+               (v[0] == [u0] and v[1] == [u1]) for _, v in before):
+            res.count(f'{label}:shape:union-around-largest-intersection')
+        if any(v[2] is not None and v[2][0] == 'UNION' and not v[2][1]
+               for _, v in before):
+            res.count(f'{label}:shape:union-without-operands')
+        if any(v[2] is not None and v[2][0] == 'INTE' for _, v in before):
+            res.count(f'{label}:shape:inte-operands')
+        if any(len(ids) >= 2 for ids in case['matching'].values()):
+            res.count(f'{label}:shape:collection-surfaces')
+        if obs[3] and obs[4]:
+            res.count(f'{label}:shape:both-caches-used')
+        if case['rn'] and any(k != v for k, v in case['rn'].items()):
+            res.count(f'{label}:shape:merged-surfaces')
+            rn = case['rn']
+            if rn.get(u0, u0) != u0 or rn.get(u1, u1) != u1:
+                res.count(f'{label}:shape:helper-plane-merged')
         for why in fails[:1]:
             res.violation('impl-violation',
                           f'volume table breaks the property: {why}'[:300],
